@@ -12,6 +12,7 @@ import RtenVerif.Lemmas.Clip
 import RtenVerif.Lemmas.SliceCopy
 import RtenVerif.Lemmas.Append
 import RtenVerif.Props.C08
+import RtenVerif.Lemmas.WFOwned
 
 /-!
 # C09 — Layout transformations match a reference array model
@@ -1534,6 +1535,130 @@ example : (chainL [.tr, .ia 1, .mv 0 2, .ra 0, .sl [.range ⟨-2, none, 1⟩, .r
 example : (chainL [.tr, .ra 0] ⟨0, 6, [(2, 3), (3, 1)]⟩).map (fun v' => denote v' (fun i => i)) =
     (.error .panic : Except Err (NArr Nat)) ∧
     chainR [.tr, .ra 0] (⟨[2, 3], [0, 1, 2, 3, 4, 5]⟩ : NArr Nat) = .error .panic := ⟨by rfl, by rfl⟩
+
+/-! ## T2 on tensor states: view operations, `to_contiguous` and `reshaped` in one chain -/
+
+theorem WF_toContiguous (t : TState) : WF (toContiguous t).view := by
+  unfold toContiguous
+  split
+  · unfold WF; exact Nat.le_refl _
+  · exact WF_ofArr _ (denote_data_length _ _)
+
+theorem WF_reshaped (t t' : TState) (shape : List Nat) (hwf : WF t.view)
+    (h : reshaped t shape = .ok t') : WF t'.view := by
+  unfold reshaped at h
+  split at h
+  · cases h
+  · rename_i hn
+    have hn' : numel shape = numelD t.view.dims := by omega
+    split at h
+    · rename_i hc
+      injection h with h
+      subst h
+      unfold WF at hwf ⊢
+      simp only []
+      rw [minDataLen_contigDims, hn']
+      rw [minDataLen_contiguous _ hc] at hwf
+      exact hwf
+    · injection h with h
+      subst h
+      unfold WF
+      simp only []
+      rw [minDataLen_contigDims, hn']
+      have := denote_data_length t.view (fun i => t.store.getD i 0)
+      show numel (sizes t.view.dims) ≤ t.arr.data.length
+      rw [show t.arr.data.length = numel (sizes t.view.dims) from this]
+      exact Nat.le_refl _
+
+/-- Operations on a tensor state (buffer + view). -/
+inductive TOp
+  | view (op : VOp)
+  | tc
+  | rs (shape : List Nat)
+
+def TOp.applyL : TOp → TState → Except Err TState
+  | .view op, t => (op.applyL t.view).map (fun v => { t with view := v })
+  | .tc, t => .ok (toContiguous t)
+  | .rs shape, t => reshaped t shape
+
+def TOp.applyR : TOp → NArr Nat → Except Err (NArr Nat)
+  | .view op, A => op.applyR A
+  | .tc, A => .ok A
+  | .rs shape, A => match A.reshape shape with
+    | some B => .ok B
+    | none => .error .panic
+
+def TOp.stepsOk : TOp → Prop
+  | .view op => op.stepsOk
+  | _ => True
+
+theorem c09_state_step (op : TOp) (t : TState) (hwf : WF t.view) (hs : op.stepsOk) :
+    (op.applyL t).map TState.arr = op.applyR t.arr ∧
+    ∀ t', op.applyL t = .ok t' → WF t'.view := by
+  cases op with
+  | view op =>
+    obtain ⟨h1, h2⟩ := c09_step op t.view (fun i => t.store.getD i 0) hwf hs
+    simp only [TOp.applyL, TOp.applyR]
+    cases hL : op.applyL t.view with
+    | error e =>
+      rw [hL] at h1
+      exact ⟨h1, fun t' h => by cases h⟩
+    | ok v' =>
+      rw [hL] at h1
+      refine ⟨h1, ?_⟩
+      intro t' h
+      simp only [Except.map] at h
+      injection h with h
+      subst h
+      exact h2 v' hL
+  | tc =>
+    refine ⟨by simp only [TOp.applyL, TOp.applyR, Except.map, c09_to_contiguous], ?_⟩
+    intro t' h
+    simp only [TOp.applyL] at h
+    injection h with h
+    exact h ▸ WF_toContiguous t
+  | rs shape =>
+    exact ⟨c09_reshaped t shape, fun t' h => WF_reshaped t t' shape hwf h⟩
+
+def chainTL : List TOp → TState → Except Err TState
+  | [], t => .ok t
+  | op :: ops, t => match op.applyL t with
+    | .ok t' => chainTL ops t'
+    | .error e => .error e
+
+def chainTR : List TOp → NArr Nat → Except Err (NArr Nat)
+  | [], A => .ok A
+  | op :: ops, A => match op.applyR A with
+    | .ok A' => chainTR ops A'
+    | .error e => .error e
+
+/-- **C09.T2 (tensor states)**: chains mixing the view operations with `to_contiguous` and
+`reshaped` (view or copy) denote the reference chain; the storage-window invariant is kept
+across copies, so later view operations stay covered. -/
+theorem c09_state_chain (ops : List TOp) (t : TState) (hwf : WF t.view)
+    (hs : ∀ op ∈ ops, op.stepsOk) :
+    (chainTL ops t).map TState.arr = chainTR ops t.arr := by
+  induction ops generalizing t with
+  | nil => rfl
+  | cons op ops ih =>
+    obtain ⟨hstep, hwf'⟩ := c09_state_step op t hwf (hs op List.mem_cons_self)
+    simp only [chainTL, chainTR]
+    cases hL : op.applyL t with
+    | error e =>
+      rw [hL] at hstep
+      simp only [Except.map] at hstep
+      rw [← hstep]
+      rfl
+    | ok t' =>
+      rw [hL] at hstep
+      simp only [Except.map] at hstep
+      rw [← hstep]
+      exact ih t' (hwf' t' hL) (fun op' h => hs op' (List.mem_cons_of_mem _ h))
+
+/-- Non-vacuity: transpose, copy, reshape, slice on a 2×3 tensor. -/
+example : (chainTL [.view .tr, .tc, .rs [6], .view (.sl [.range ⟨1, none, 2⟩])]
+      ⟨[0, 1, 2, 3, 4, 5], ⟨0, 6, [(2, 3), (3, 1)]⟩⟩).map TState.arr =
+    .ok ⟨[3], [3, 4, 5]⟩ := by rfl
 
 /-! ## T3: slice arithmetic agrees with the NumPy / CPython definition
 
